@@ -25,6 +25,35 @@ def run_cases(chk, ctx, cases, label):
     if cases:
         chk.sample(dict(case=cases[0], implementation=impl[0], model=mod[0]))
 
+def reversed_operands(chk, n):
+    """rational arithmetic with a plain int on the LEFT (1 - x, 2 * x, 1 / x, 7 // x, 7 % x): Python hands these to the reversed
+    operator of the Rational on the right; the result must be exact and again a Rational (no model: Fraction oracle only)"""
+    from fractions import Fraction
+    import operator
+    rng = vd.rng_for(chk.seed, 'c12-reversed')
+    V = vd.setup_class(2, 0, 0, rng.choice([0, 3, 12]))
+    ops = [('add', operator.add), ('sub', operator.sub), ('mul', operator.mul), ('truediv', operator.truediv),
+           ('floordiv', operator.floordiv), ('mod', operator.mod)]
+    for _ in range(n):
+        i = rng.choice([0, 1, -1, 2, 7, -7, rng.randint(-50, 50), rng.choice([-1, 1]) * rng.randint(0, 10 ** rng.randint(1, 30))])
+        num = rng.choice([1, -1, 2, 3, -5, rng.randint(-40, 40), rng.randint(-10 ** 20, 10 ** 20)]); den = rng.choice([1, 2, 3, 7, rng.randint(1, 60), rng.randint(1, 10 ** 12)])
+        name, f = rng.choice(ops)
+        if num == 0 and name in ('truediv', 'floordiv', 'mod'): num = 1
+        chk.count(); chk.nontrivial(('rational', 'r' + name, i == 0, den == 1))
+        x = V(num, den)
+        try:
+            r = f(i, x)
+            got = vd.show(V, r)
+        except Exception as ex:
+            got = "exn " + type(ex).__name__
+        w = f(Fraction(i), Fraction(num, den))
+        want = "ok %d/%d" % (Fraction(w).numerator, Fraction(w).denominator)
+        if got != want:
+            chk.violation("reversed operand: int %s Rational is not the exact result as a value of the class" % name,
+                          dict(reversed=dict(i=i, num=num, den=den, op=name), implementation=got, expected=want),
+                          signature=dict(kind='c12-oracle', op='r' + name))
+    chk.cov['reversed_operands'] = "%d operations int (+,-,*,/,//,%%) Rational" % n
+
 def run(chk, ctx):
     n = 6000 if ctx['tier'] == 'quick' else 400000
     chk.cov['rule'] = ("random + boundary operands (all signs, zero, up to 10^40) x precision 0..30 x every Fixed/Rational "
@@ -45,12 +74,23 @@ def run(chk, ctx):
         c['integer'] = rng.choice([('none',), ('precision', 0), ('precision', 3), ('precision', rng.randint(1, 12)), ('precision', '6')])
     run_cases(chk, ctx, ints, 'integer')
     chk.cov['integer_arithmetic'] = "%d operations on the class initialised with arithmetic=integer (caller precision none/0/N)" % len(ints)
+    reversed_operands(chk, 600 if ctx['tier'] == 'quick' else 20000)
     if ctx['tier'] == 'thorough':
         grid = list(vd.grid_cases(maxraw=40, ps=(0, 1, 2, 3)))
         run_cases(chk, ctx, grid, 'grid')
         chk.cov['exhaustive_grid'] = "|raw|<=40, p<=3, ops mul_op/truediv/kmul/kdiv/kmuldiv, both roundings: %d cases" % len(grid)
 
 def replay(chk, payload):
+    if 'reversed' in payload:
+        from fractions import Fraction
+        import operator
+        q = payload['reversed']; V = vd.setup_class(2, 0, 0, 12); f = getattr(operator, q['op'])
+        try: got = vd.show(V, f(q['i'], V(q['num'], q['den'])))
+        except Exception as ex: got = "exn " + type(ex).__name__
+        w = Fraction(f(Fraction(q['i']), Fraction(q['num'], q['den'])))
+        want = "ok %d/%d" % (w.numerator, w.denominator)
+        print("implementation:", got, " expected:", want)
+        return 0 if got == want else 1
     c = payload['case']
     c['A'], c['B'], c['C'] = tuple(c['A']), tuple(c['B']), tuple(c['C'])
     if c.get('integer'): c['integer'] = tuple(c['integer'])
